@@ -70,7 +70,7 @@ def main(tier, replay):
     v = Verdict(PID)
     cov = {"checker_cmd": "coq/mk.sh theories/Union/Props.vo (coqc 8.16.1, full .vo build) + Print Assumptions per theorem",
            "trusted_base": vlib.TRUSTED_BASE + [
-               "modelled, not verified: the buffer's ordered index (ART / red-black tree) is abstracted to 'newest value-log entry of the key' and an ascending list; value-log positions are entry counts instead of byte offsets; key length limit, Dirty, SnapshotSeqNo are modelled and compared without a theorem; the pipelined flush protocol (generations, thresholds, errors) and memory hooks are not modelled",
+               "modelled, not verified: the buffer's ordered index (ART / red-black tree) is abstracted to 'newest value-log entry of the key' and an ascending list; value-log positions are entry counts instead of byte offsets; the pipelined flush protocol (generations, thresholds, errors) and memory hooks are not modelled",
                "the Go driver's discipline tracker decides which checkpoints are still legal to revert to (a checkpoint dies when the log is truncated below it; reverting below the top staging level is API misuse)"]}
     gate = vlib.coq_gate(PID, AREAS, PROPS)
     cov.update(obligations=gate["obligations"], discharged=gate["discharged"], theorems=gate["theorems"],
